@@ -91,7 +91,56 @@ func ruleMergeByName(c *core.Ctx, rule string, fn *ssa.Function, withMult bool) 
 		}
 	}
 	effects := map[string]int{}
-	x.Hooks.Decide = decideExists
+	// Second accepted idiom: instead of a linear Index scan, a map created in this function records the
+	// position of every name already in the list. "pos, exists := m[name]" is the lookup; a new name must be
+	// recorded at len(list) immediately before its Add; an existing name's slot is list[pos].
+	x.Hooks.Instr = func(x *absint.Exec, s *absint.State, in ssa.Instruction) {
+		lk, ok := in.(*ssa.Lookup)
+		if !ok || !lk.CommaOk || len(s.Frames) == 0 {
+			return
+		}
+		f := s.Frames[len(s.Frames)-1]
+		if f.Fn != fn {
+			return
+		}
+		mv, ok1 := f.Env[lk.X]
+		kv, ok2 := f.Env[lk.Index]
+		if !ok1 || !ok2 {
+			return
+		}
+		if sym, isSym := mv.(absint.Sym); !isSym || !strings.HasPrefix(sym.Name, "map:") {
+			return // not a map made here
+		}
+		s.SetData("lookup", kv.Key())
+		s.SetData("exists", "")
+		s.SetData("posmap", mv.Key())
+		s.SetData("pos", "")
+	}
+	x.Hooks.MapUpdate = func(x *absint.Exec, s *absint.State, in *ssa.MapUpdate, m, k, v absint.Value) {
+		if s.Data["posmap"] == "" || m.Key() != s.Data["posmap"] {
+			if sym, isSym := m.(absint.Sym); isSym && strings.HasPrefix(sym.Name, "map:") {
+				report("a map of positions is written before any lookup in it (%s)", c.P.Pos(in.Pos()))
+			}
+			return
+		}
+		switch {
+		case s.Data["exists"] != "F":
+			report("the position of a name is recorded with exists=%q: an existing name's position must not change (%s)", s.Data["exists"], c.P.Pos(in.Pos()))
+		case k.Key() != s.Data["lookup"]:
+			report("a position is recorded under %s, not under the name looked up (%s)", k.Key(), s.Data["lookup"])
+		case s.Data["pos"] != "":
+			report("two positions recorded for one looked-up element (%s)", c.P.Pos(in.Pos()))
+		case s.Data["eff"] == "1":
+			report("the position of a new name is recorded after its Add (%s): accepted form is m[name] = len(list) immediately before the Add", c.P.Pos(in.Pos()))
+		}
+		s.SetData("pos", v.Key())
+	}
+	x.Hooks.Decide = func(x *absint.Exec, s *absint.State, atom string, outs []string) {
+		decideExists(x, s, atom, outs)
+		if pm := s.Data["posmap"]; pm != "" && len(outs) == 1 && atom == "b("+absint.NewTerm("has", absint.Sym{Name: strings.TrimPrefix(pm, "§")}, absint.Sym{Name: strings.TrimPrefix(s.Data["lookup"], "§")}).Key()+")" {
+			s.SetData("exists", outs[0])
+		}
+	}
 	x.Hooks.BackEdge = func(x *absint.Exec, s *absint.State, f *absint.Frame, h *ssa.BasicBlock) {
 		if f.Fn != fn {
 			return
@@ -99,9 +148,16 @@ func ruleMergeByName(c *core.Ctx, rule string, fn *ssa.Function, withMult bool) 
 		if s.Data["lookup"] != "" && s.Data["eff"] != "1" {
 			report("an element is looked up (exists=%s) but the iteration neither accumulates into its slot nor adds it", s.Data["exists"])
 		}
+		if s.Data["lookup"] == "" {
+			report("an element of the list is passed over without being looked up or added (%s): it disappears from the merged list", x.Valuation(s))
+		}
+		if s.Data["posmap"] != "" && s.Data["exists"] == "F" && s.Data["pos"] == "" {
+			report("a new name is added but its position is not recorded in the position map: its next occurrence would be added again")
+		}
 		s.SetData("eff", "")
 		s.SetData("lookup", "")
 		s.SetData("exists", "")
+		s.SetData("pos", "")
 	}
 	wantDelta := func(x *absint.Exec, nameV, val absint.Value) bool {
 		// val must be elem.Value (x mult) for the element whose Name was looked up
@@ -132,6 +188,16 @@ func ruleMergeByName(c *core.Ctx, rule string, fn *ssa.Function, withMult bool) 
 				report("two effects for one looked-up element (%s)", c.P.Pos(site.Pos()))
 			}
 			s.SetData("eff", "1")
+			if s.Data["posmap"] != "" {
+				cur := x.Load(s, args[0], nil)
+				want := absint.NewTerm("len", cur).Key()
+				if t, ok := cur.(*absint.Term); ok && t.Op == "make" && len(t.Args) == 2 {
+					want = t.Args[1].Key() // the engine folds len(make(T, n)) to n
+				}
+				if s.Data["pos"] != want {
+					report("the position recorded for a new name is %s, not the length of the list before the Add (%s): later occurrences of the name accumulate into another element's slot (%s)", s.Data["pos"], want, c.P.Pos(site.Pos()))
+				}
+			}
 			nameV := args[1]
 			if nameV.Key() != s.Data["lookup"] {
 				report("the element added (%s) is not the one looked up (%s)", nameV.Key(), s.Data["lookup"])
@@ -166,7 +232,11 @@ func ruleMergeByName(c *core.Ctx, rule string, fn *ssa.Function, withMult bool) 
 			report("two effects for one looked-up element (%s)", c.P.Pos(in.Pos()))
 		}
 		s.SetData("eff", "1")
-		if !strings.Contains(p.Loc, "[§ndx#") {
+		okSlot := strings.Contains(p.Loc, "[§ndx#")
+		if pm := s.Data["posmap"]; pm != "" && strings.Contains(p.Loc, "["+absint.NewTerm("lookup", absint.Sym{Name: strings.TrimPrefix(pm, "§")}, absint.Sym{Name: strings.TrimPrefix(s.Data["lookup"], "§")}).Key()+"]") {
+			okSlot = true
+		}
+		if !okSlot {
 			report("the updated slot %s is not the position Index returned (%s)", p.Loc, c.P.Pos(in.Pos()))
 		}
 		lookedUp := absint.Sym{Name: strings.TrimPrefix(s.Data["lookup"], "§")}
